@@ -323,8 +323,8 @@ def nd_type_expr(kind, raw):
     return "decltype(nm::cast(%s, kind::ndarray_%s))" % (raw, kind)
 
 
-def emit_arr(e, a, ac, name, vec, S, base, T):
-    """array operand of kind ac.kind with template shape S; run-time shape in `vec`; labels base.."""
+def emit_arr(e, a, ac, name, vec, S, base, T, mod=None):
+    """array operand of kind ac.kind with template shape S; run-time shape in `vec`; labels base.. (taken modulo `mod` if given)"""
     k = ac.kind
     dims = "".join("[%d]" % s for s in S)
     raw = name + "_raw"
@@ -363,7 +363,10 @@ def emit_arr(e, a, ac, name, vec, S, base, T):
         e.add("%s_.resize(vh::to_shape(%s));" % (name, vec))
     else:
         raise ValueError("array kind " + k)
-    e.add("c9::fill_labels(%s_, %d);" % (name, base))
+    if mod:
+        e.add("c9::fill_labels_mod(%s_, %d, %d);" % (name, base, mod))
+    else:
+        e.add("c9::fill_labels(%s_, %d);" % (name, base))
     e.add("const auto& %s = %s_;" % (name, name))
 
 
@@ -380,7 +383,13 @@ def rshape(rng, n, ext=EXT, lo=1):
 
 class Op:
     def __init__(self, name, headers, args, call, dims, gen, oracle, family="index", norm=None, result="index",
-                 cx=True, weight=1, ext=EXT, parts=None, core_dims=()):
+                 cx=True, weight=1, ext=EXT, parts=None, core_dims=(), wave=1, tol=0.0, quick_kinds=None, exclude=None):
+        self.exclude = exclude      # (configuration string, value set) -> reason: a cell of the unchanged library with a reported finding
+                                    # awaiting triage (findings/*.md); not run, never silently: the reason names the finding
+        self.wave = wave            # 2: operations added in the second wave (vf/c09_ops2.py): own pool in the plan, booleans always
+                                    # compile-time constants, scalars next to a clipped index array are run-time values
+        self.tol = tol              # relative tolerance of element comparisons (floating-point results only)
+        self.quick_kinds = quick_kinds
         self.core_dims = list(core_dims)   # signatures only used by the deterministic core (probed, never drawn from the seed)
         self.parts = tuple(parts or ())   # composite view operation: the nested library calls, outermost first
         self.composite = bool(parts)
@@ -1062,14 +1071,20 @@ SLICE_PATTERNS = [("t2",), ("t2", "t3"), ("i", "t2"), ("e", "t2"), ("n2", "nn"),
 VEXT = 3
 
 
-def A(shape, base):
-    return dict(shape=[int(x) for x in shape], base=base)
+def A(shape, base, mod=None):
+    d = dict(shape=[int(x) for x in shape], base=base)
+    if mod:
+        d["mod"] = mod      # labels are taken modulo mod (conditions: 0 / non-zero)
+    return d
 
 
 def np_arr(a, T="int"):
     n = int(np.prod(a["shape"]))
     dt = {"int": np.int64, "long": np.int64, "float": np.float64, "double": np.float64}[T]
-    return (np.arange(n, dtype=dt) + a["base"]).reshape(a["shape"])
+    r = np.arange(n, dtype=dt) + a["base"]
+    if a.get("mod"):
+        r = r % a["mod"]
+    return r.reshape(a["shape"])
 
 
 def AR(x):
@@ -1667,6 +1682,9 @@ MIXED_IA = [("ct", "fx"), ("ct", "dy"), ("ct", "clt"), ("ct", "sv"), ("clt", "ct
             ("lit", "fx"), ("fx", "lit"), ("mdy", "fx"), ("fx", "mdy"), ("mdy", "ct"), ("sv", "clt"), ("cla", "sv")]
 
 
+MIXED_IA2 = [("svt", "fx"), ("fx", "svt"), ("svt", "dy"), ("dy", "svt"), ("ct", "svt"), ("svt", "ct"), ("svt", "sv"), ("clt", "svt"), ("svt", "tp")]
+
+
 def _t_for(a, kind, prefer=None):
     ts = IA_T.get(kind)
     if ts is None:
@@ -1754,6 +1772,29 @@ def _view_build(o):
     return build
 
 
+def _view_build2(o):
+    """configuration string of a second-wave view from (array kinds, index kind): the build() of candidates_view"""
+    has_ia = any(a.typ == "ia" for a in o.args)
+
+    def build(akinds, ik):
+        cfg = []
+        it = itertools.cycle(akinds) if akinds else iter(())
+        for a in o.args:
+            if a.typ == "arr":
+                cfg.append(ArgCfg(next(it)))
+            elif a.typ == "ia":
+                cfg.append(ArgCfg(ik, _t_for(a, ik)))
+            else:
+                c = _is_cfg(a, ik)
+                if a.boolean:
+                    c = ArgCfg("tt")
+                elif c.kind == "cl" and has_ia:
+                    c = ArgCfg("rt", "int" if a.signed else "size_t")
+                cfg.append(c)
+        return cfg_str(cfg)
+    return build
+
+
 def composite_target_cfgs(o, build=None, quick=False):
     build = build or _view_build(o)
     narr = len([a for a in o.args if a.typ == "arr"])
@@ -1779,9 +1820,11 @@ def candidates_view(o, base_only=False):
     arrs = [a for a in o.args if a.typ == "arr"]
     out = []
 
+    has_ia = any(a.typ == "ia" for a in o.args)
+
     def build(akinds, ik, flip=False):
         cfg = []
-        it = iter(akinds)
+        it = itertools.cycle(akinds) if akinds else iter(())
         for a in o.args:
             if a.typ == "arr":
                 cfg.append(ArgCfg(next(it)))
@@ -1789,6 +1832,15 @@ def candidates_view(o, base_only=False):
                 cfg.append(ArgCfg(ik, _t_for(a, ik)))
             else:
                 c = _is_cfg(a, ik)
+                if o.wave >= 2:
+                    # second wave: booleans are compile-time constants; a scalar next to a clipped index ARRAY is a run-time value
+                    # (clipped scalars are exercised by the operations whose arguments are all scalars)
+                    if a.boolean:
+                        c = ArgCfg("tt")
+                    elif c.kind == "cl" and has_ia:
+                        c = ArgCfg("rt", "int" if a.signed else "size_t")
+                    cfg.append(c)
+                    continue
                 if c.kind == "cl" and (o.name in NO_SCALAR_CL or o.composite):
                     # the operation does not compile with a clipped scalar (probed): use a run-time scalar for this array kind
                     c = ArgCfg("rt", "int" if a.signed else "size_t")
@@ -1802,21 +1854,29 @@ def candidates_view(o, base_only=False):
         return cfg_str(cfg)
 
     has_idx = any(a.typ != "arr" for a in o.args)
-    has_bool = any(a.typ == "is" and a.boolean for a in o.args)
+    has_bool = any(a.typ == "is" and a.boolean for a in o.args) and o.wave < 2
+    rot = IDX_ROT if o.wave < 2 else IDX_ROT + ["svt", "mdy", "mfx"]
     for i, k in enumerate(ARR_KINDS):
-        out.append(build([k] * len(arrs), IDX_ROT[i % len(IDX_ROT)], flip=has_bool and i % 2 == 1))
+        out.append(build([k] * len(arrs), rot[i % len(rot)], flip=has_bool and i % 2 == 1))
     if len(arrs) >= 2:
         for i, (k1, k2) in enumerate(ARR_MIXED):
-            out.append(build([k1, k2], IDX_ROT[i % len(IDX_ROT)]))
+            out.append(build([k1, k2], rot[i % len(rot)]))
     if o.composite and not base_only:
         out += composite_target_cfgs(o, build=build)
     if has_idx and not base_only:
-        for k in ("ds_db", "cs_fb", "ls_hb", "fs_hb", "hs_db"):
-            for ik in IDX_ROT:
+        for k in (("ds_db", "cs_fb", "ls_hb", "fs_hb", "hs_db") if arrs else ("",)):
+            for ik in rot:
                 out.append(build([k] * len(arrs), ik))
         if has_bool and not o.composite:
             for i, k in enumerate(ARR_KINDS):
                 out.append(build([k] * len(arrs), IDX_ROT[i % len(IDX_ROT)], flip=i % 2 == 0))
+    if o.wave >= 2 and not arrs and not has_ia and not base_only:
+        # generator views (arange, eye, ...): every combination of constant / literal / clipped / run-time scalars
+        iss = [a for a in o.args if a.typ == "is"]
+        nb = [a for a in iss if not a.boolean]
+        for combo in itertools.product(("ct", "rt:int", "cl", "lit"), repeat=len(nb)):
+            it = iter(combo)
+            out.append("|".join("tt" if a.boolean else next(it) for a in iss))
     seen = set()
     res = []
     for c in out:
@@ -1846,12 +1906,12 @@ def candidates(o):
         return cfg_str(cfg)
 
     n = max(1, len(ias))
-    for k in IA_UNIFORM:
+    for k in (IA_UNIFORM + ["svt"] if o.wave >= 2 else IA_UNIFORM):
         ts = IA_T.get(k, [None])
         for T in ts:
             out.append(build([k] * n, T))
     if len(ias) >= 2:
-        for (k1, k2) in MIXED_IA:
+        for (k1, k2) in (MIXED_IA + MIXED_IA2 if o.wave >= 2 else MIXED_IA):
             kinds = [k1, k2] + [k2] * (len(ias) - 2)
             out.append(build(kinds))
     if ias:
@@ -1955,6 +2015,8 @@ class Group:
         """may this instance be run on the value set?"""
         c = inst.cfg
         base = self.baked[inst.j] if inst.j is not None else None
+        if self.op.exclude is not None and c != "cx" and self.op.exclude(c, vals):
+            return False
         if c == "cx":
             return vals == base
         for a, ac in zip(self.op.args, cfg_parse(c)):
@@ -2065,7 +2127,7 @@ class Group:
                 elif a.typ == "is":
                     emit_is(e, a, ac, nm_, "v_" + a.name, v, self.sig.get(a.name))
                 else:
-                    emit_arr(e, a, ac, nm_, "v_" + a.name, self.sig[a.name]["S"], v["base"], self.sig[a.name]["T"])
+                    emit_arr(e, a, ac, nm_, "v_" + a.name, self.sig[a.name]["S"], v["base"], self.sig[a.name]["T"], v.get("mod"))
                     # hook events of the construction of THIS operand (library code: ndarray constructor / resize)
                     e.add("c9::emit_hook_phase(out, \"HKA%d\");" % o.args.index(a))
             if o.result == "index":
@@ -2104,6 +2166,8 @@ class Program:
                "#include \"c09_common.hpp\""]
         if needs_view:
             src.append("#include \"c09_view.hpp\"")
+        if any(g.op.wave >= 2 for g in self.groups):
+            src.append("#include \"c09_extra.hpp\"")
         src += ["#include \"%s\"" % h for h in hs]
         src.append("using namespace nm::literals;")
         src.append("namespace view = nm::view;")
@@ -2220,6 +2284,8 @@ def make_group(gid, o, rng, supported_cfgs, nbaked, max_cfgs, pinned=(), dims=No
                 base.append(c)
             elif twin in cfgs:
                 base.append(twin)
+        if not any(a.typ == "arr" for a in o.args):
+            base = list(cfgs)[:24]       # generator views: the configurations differ in the index arguments only
         if o.composite:
             # the fixed / bounded array kinds with run-time index arguments are part of every program of a composite
             tgt = [c for c in composite_target_cfgs(o, quick=small) if c in cfgs]
@@ -2263,6 +2329,9 @@ def make_group(gid, o, rng, supported_cfgs, nbaked, max_cfgs, pinned=(), dims=No
     chosen += rest[:max(0, max_cfgs - len(chosen))]
     return Group(gid, o, dims, baked, sig, chosen)
 
+
+if __name__ != "__main__":
+    from . import c09_ops2  # noqa: E402,F401  (second wave of operations; registers itself in OPS)
 
 if __name__ == "__main__":
     from . import c09_probe
